@@ -263,4 +263,68 @@ theorem constructSrc_sat (c : Cfg) (blk idx : Nat) (s : Src α) (w : World α)
     · rw [hrm] at this; simpa using this
     · rw [hrm] at this; simpa using this
 
+/-- assigning to a live slot from a live source (not the slot itself): exact effect, or nothing happened (throw) -/
+theorem assignSrc_sat (c : Cfg) (blk idx : Nat) (s : Src α) (w : World α) (u : Val α)
+    (hraw : (w.mem blk)[idx]? = some (.obj u)) (hsrc : SrcLive w s) (hself : s.loc ≠ some (blk, idx)) :
+    (assignSrc c blk idx s w).sat (fun _ w' => WroteFrom c w w' blk idx s) (fun e w' => e = .elem ∧ Quiet w w') := by
+  have hlt := lt_of_get hraw
+  cases s with
+  | ext a =>
+    unfold assignSrc
+    refine sat_bind (tick_sat _ _ w) (fun _ w1 hq => ?_) (fun e w1 h => h)
+    have hraw1 : (w1.mem blk)[idx]? = some (.obj u) := by rw [hq.1]; exact hraw
+    rw [setObj_run c blk idx _ u _ w1 hraw1]
+    exact wrote_plain c w w1 blk idx _ _ _ hq hlt rfl rfl
+  | extMove a =>
+    unfold assignSrc
+    refine sat_bind (tick_sat _ _ w) (fun _ w1 hq => ?_) (fun e w1 h => h)
+    have hraw1 : (w1.mem blk)[idx]? = some (.obj u) := by rw [hq.1]; exact hraw
+    rw [setObj_run c blk idx _ u _ w1 hraw1]
+    exact wrote_plain c w w1 blk idx _ _ _ hq hlt rfl rfl
+  | value a =>
+    unfold assignSrc
+    refine sat_bind (tick_sat _ _ w) (fun _ w1 hq => ?_) (fun e w1 h => h)
+    have hraw1 : (w1.mem blk)[idx]? = some (.obj u) := by rw [hq.1]; exact hraw
+    rw [setObj_run c blk idx _ u _ w1 hraw1]
+    exact wrote_plain c w w1 blk idx _ _ _ hq hlt rfl rfl
+  | copyOf b i =>
+    obtain ⟨v, hv⟩ := hsrc b i rfl
+    have hne : (b, i) ≠ (blk, idx) := by
+      intro h; exact hself (by rw [← h]; rfl)
+    unfold assignSrc
+    refine sat_bind (tick_sat _ _ w) (fun _ w1 hq => ?_) (fun e w1 h => h)
+    have hraw1 : (w1.mem blk)[idx]? = some (.obj u) := by rw [hq.1]; exact hraw
+    have hv1 : (w1.mem b)[i]? = some (.obj v) := by rw [hq.1]; exact hv
+    rw [bind_run, readSlot_run b i w1 v hv1]
+    simp only []
+    rw [setObj_run c blk idx _ u _ w1 hraw1]
+    have := wrote_from_slot c w w1 blk idx b i (.copyOf b i) v
+      (if c.trivial then w1.trace else w1.trace ++ [.casg blk idx]) false rfl hq hlt rfl (by simp [srcVal, hv]) hv hne
+    simpa using this
+  | moveOf b i =>
+    obtain ⟨v, hv⟩ := hsrc b i rfl
+    have hne : (b, i) ≠ (blk, idx) := by
+      intro h; exact hself (by rw [← h]; rfl)
+    unfold assignSrc
+    refine sat_bind (tick_sat _ _ w) (fun _ w1 hq => ?_) (fun e w1 h => h)
+    have hraw1 : (w1.mem blk)[idx]? = some (.obj u) := by rw [hq.1]; exact hraw
+    have hv1 : (w1.mem b)[i]? = some (.obj v) := by rw [hq.1]; exact hv
+    rw [bind_run, readSlot_run b i w1 v hv1]
+    simp only []
+    rw [bind_run, setObj_run c blk idx _ u _ w1 hraw1]
+    simp only []
+    generalize htr : (if c.trivial then w1.trace else w1.trace ++ [if c.hasMoveCtor then Ev.masg blk idx else Ev.casg blk idx]) = tr
+    have hv2 : (({ w1 with mem := upd w1.mem blk ((w1.mem blk).set idx (.obj v)), trace := tr } : World α).mem b)[i]? = some (.obj v) := by
+      show (upd w1.mem blk ((w1.mem blk).set idx (.obj v)) b)[i]? = _
+      rw [get_upd_set]
+      have : ¬ (b = blk ∧ i = idx ∧ idx < (w1.mem blk).length) := by
+        intro ⟨h1, h2, _⟩; exact hne (by rw [h1, h2])
+      simp [this, hv1]
+    rw [huskSlot_run c b i _ v hv2]
+    have := wrote_from_slot c w w1 blk idx b i (.moveOf b i) v tr c.realMove rfl hq hlt rfl (by simp [srcVal, hv]) hv hne
+    cases hrm : c.realMove
+    · rw [hrm] at this; simpa using this
+    · rw [hrm] at this; simpa using this
+
+
 end SvModel
